@@ -1164,3 +1164,63 @@ UNITS += [
          assumptions=["geometry cross_boundary / material lookup by contract (any outcome: next volume, outside, failure, volume without material); the navigator itself is property C03"],
          note="BoundaryExecutor: one crossing; energy, deposition, time and step length are outside its frame; new volume + material when it stays inside, killed when it leaves the world, errored on a navigation failure or a volume without material"),
 ]
+
+
+# ---------------------------------------------------------------------------
+# LinearPropagator::operator()(dist): the track is moved by exactly the reported distance, never beyond the requested step
+# ---------------------------------------------------------------------------
+LPR = "src/celeritas/field/LinearPropagator.hh"
+LPR_MODEL = """
+typedef struct { real_type distance; bool boundary; bool looping; } Propagation;      /* { distance{0}, boundary{false}, looping{false} } */
+typedef struct { int dummy; } GeoTrackView;
+typedef struct { GeoTrackView* geo_; } LinearPropagator;
+real_type g_next_dist; bool g_next_boundary, g_have_next;       /* ghost: the pending result of find_next_step */
+real_type g_moved; bool g_on_boundary; unsigned g_moves;         /* ghost: distance the geometry state was moved by, its on-boundary flag, number of moves */
+/* GeoTrackView::find_next_step(max): a distance-limited search (contract; the navigator itself is property C03):
+   0 <= distance <= max, and the limit is reported (no boundary) exactly when no boundary lies within it */
+Propagation GEO_find_next_step(GeoTrackView* g, real_type max_step)
+__CPROVER_requires(g != 0 && max_step > 0)
+__CPROVER_assigns(g_next_dist, g_next_boundary, g_have_next)
+__CPROVER_ensures(__CPROVER_return_value.distance >= 0 && __CPROVER_return_value.distance <= max_step && (__CPROVER_return_value.boundary == 0 || __CPROVER_return_value.boundary == 1) && !__CPROVER_return_value.looping)
+__CPROVER_ensures(!__CPROVER_return_value.boundary ==> __CPROVER_return_value.distance == max_step)
+__CPROVER_ensures(g_have_next && g_next_dist == __CPROVER_return_value.distance && g_next_boundary == __CPROVER_return_value.boundary)
+;
+/* move_to_boundary(): own EXPECT: a next step that ends on a boundary has been found */
+static void GEO_move_to_boundary(GeoTrackView* g) { __CPROVER_assert(g_have_next && g_next_boundary, "celer_expect: move_to_boundary() after find_next_step found a boundary"); g_moved = g_next_dist; g_on_boundary = 1; ++g_moves; g_have_next = 0; }
+/* move_internal(d): own EXPECTs: d > 0 and not beyond the next step found */
+static void GEO_move_internal(GeoTrackView* g, real_type dist) { __CPROVER_assert(dist > 0 && g_have_next && dist <= g_next_dist, "celer_expect: move_internal(dist) dist > 0 && dist <= next step"); g_moved = dist; g_on_boundary = 0; ++g_moves; g_have_next = 0; }
+"""
+LPR_RULES = [
+    Rule(r"result_type result = geo_\.find_next_step\(dist\);", "Propagation result = GEO_find_next_step(self->geo_, dist);", 1, note="geometry call -> contract"),
+    Rule(r"geo_\.move_to_boundary\(\);", "GEO_move_to_boundary(self->geo_);", "*", note="geometry call -> ghost"),
+    Rule(r"geo_\.move_internal\(([^()]*)\);", r"GEO_move_internal(self->geo_, \1);", "*", note="geometry call -> ghost"),
+]
+
+
+def build_linear_propagator(ctx):
+    pc = ctx.func(LPR, r"^LinearPropagator<GTV>::operator\(\)\(real_type dist\) -> result_type", LPR_RULES, name="LinearPropagator<GTV>::operator()(dist)")
+    return (HDR + LPR_MODEL + """
+Propagation LPR_call(LinearPropagator* self, real_type dist)
+__CPROVER_requires(__CPROVER_r_ok(self, sizeof(*self)) && self->geo_ != 0 && g_moves == 0 && !g_have_next)
+__CPROVER_requires(dist > 0)             /* own CELER_EXPECT */
+__CPROVER_assigns(g_next_dist, g_next_boundary, g_have_next, g_moved, g_on_boundary, g_moves)
+/* the reported distance never exceeds the requested step and the geometry state is moved once, by exactly that distance (step length == straight-line displacement) */
+__CPROVER_ensures(__CPROVER_return_value.distance >= 0 && __CPROVER_return_value.distance <= dist && g_moves == 1 && g_moved == __CPROVER_return_value.distance)
+/* the boundary flag is the geometry's on-boundary state; a step that is not boundary-limited is the full requested step; a straight line never loops */
+__CPROVER_ensures(__CPROVER_return_value.boundary == g_on_boundary && (!__CPROVER_return_value.boundary ==> __CPROVER_return_value.distance == dist) && !__CPROVER_return_value.looping)
+{""" + pc.body + """}
+void h_lpr(void)
+{
+    GeoTrackView g; LinearPropagator p = {&g}; real_type d;
+    LPR_call(&p, d);
+    VERIF_CANARY();
+}
+""")
+
+
+UNITS += [
+    Unit("c05_linear_propagator", build_linear_propagator, "h_lpr", enforce="LPR_call", replace=["GEO_find_next_step"], timeout=120, backend=["sat", "cvc5"],
+         must_have=[r"LPR_call.postcondition", r"celer_expect", r"celer_assert"], checks=LEAF_CHECKS,
+         assumptions=["GeoTrackView::find_next_step(max) by contract (0 <= distance <= max; limit reported iff no boundary within it): the navigator is property C03"],
+         note="LinearPropagator::operator()(dist): distance in [0, dist], geometry moved once by exactly that distance, boundary flag == on-boundary state, a non-boundary step is the full step; the geometry calls' own preconditions hold"),
+]
